@@ -1321,6 +1321,13 @@ class System:
             # Else, the last added module wins
             self._remove(first)
             self.unprocessed_modules.remove(first)
+            # The modules of a replaced package are gone with it.
+            for mod in list(self.unprocessed_modules):
+                ancestor = mod.parent
+                while ancestor is not None and ancestor is not first:
+                    ancestor = ancestor.parent
+                if ancestor is first:
+                    self.unprocessed_modules.remove(mod)
             self._addUnprocessedModule(dup)
 
     def _introspectThing(self, thing: object, parent: CanContainImportsDocumentable, parentMod: _ModuleT) -> None:
